@@ -186,3 +186,54 @@ func factsLockOrder() {
 	facts = append(facts, fact{name, typ, "Known (" + b(!cyclic && len(list) > 0) + ")",
 		fmt.Sprintf("cluster/conn.go, held -> acquired: %s; %s", strings.Join(list, ", "), map[bool]string{true: "CYCLE", false: "no cycle"}[cyclic])})
 }
+
+// C18: the raft transport's group table.  Every function of storage/raft/transport.go that takes groupsMu does nothing
+// under it but read or write the table: no call other than the lock operations themselves and builtins, no channel
+// operation, no select - so no message delivery (raft.Step can wait for a leader), dial or log deletion ever happens
+// while the lock is held, and loading / unloading a group never waits for more than a table access.
+func init() { extraExtractors = append(extraExtractors, factsTransportLock) }
+
+func factsTransportLock() {
+	const name, typ = "transport_lock_only_around_table", "bool"
+	f := parse("storage/raft/transport.go")
+	if f == nil {
+		unrec(name, typ, "storage/raft/transport.go not found")
+		return
+	}
+	builtins := map[string]bool{"delete": true, "len": true, "make": true, "append": true}
+	n := 0
+	why := ""
+	for _, d := range f.Decls {
+		fd, ok := d.(*ast.FuncDecl)
+		if !ok || fd.Body == nil || !(strings.Contains(src(fd.Body), "groupsMu.Lock()") || strings.Contains(src(fd.Body), "groupsMu.RLock()")) {
+			continue
+		}
+		n++
+		ast.Inspect(fd.Body, func(x ast.Node) bool {
+			switch y := x.(type) {
+			case *ast.CallExpr:
+				cn := norm(src(y.Fun))
+				if strings.HasPrefix(cn, "this.groupsMu.") || builtins[cn] {
+					return true
+				}
+				why = fd.Name.Name + " calls " + cn + " in a function that takes groupsMu"
+			case *ast.SendStmt, *ast.SelectStmt, *ast.GoStmt:
+				why = fd.Name.Name + " has a channel operation / goroutine in a function that takes groupsMu"
+			case *ast.UnaryExpr:
+				if y.Op.String() == "<-" {
+					why = fd.Name.Name + " receives from a channel in a function that takes groupsMu"
+				}
+			}
+			return true
+		})
+	}
+	if n == 0 {
+		unrec(name, typ, "no function takes groupsMu")
+		return
+	}
+	if why != "" {
+		known(name, typ, "false", why)
+		return
+	}
+	known(name, typ, "true", fmt.Sprintf("%d functions take groupsMu; each only reads or writes the group table under it", n))
+}
